@@ -30,8 +30,34 @@ func (g *G) Leaf() *DNode {
 	return Obj()
 }
 
+// Wide draws a container far wider than the usual handful of members: 65..140 array elements
+// or 20..45 object members (sizes at which pooled buffers and tables have to grow).
+func (g *G) Wide() *DNode {
+	if g.chance("wideobj", 40) {
+		o := Obj()
+		n := 20 + g.intn("widekeys", 26)
+		for i := 0; i < n; i++ {
+			o.Set("k"+strconv.Itoa((i*37)%n)+"_"+strconv.Itoa(i), Num(float64(i)))
+		}
+		return o
+	}
+	a := Arr()
+	n := 65 + g.intn("widelen", 76)
+	for i := 0; i < n; i++ {
+		if i%9 == 4 {
+			a.Kids = append(a.Kids, Obj().Set("a", Num(float64(i))))
+		} else {
+			a.Kids = append(a.Kids, Num(float64(i)))
+		}
+	}
+	return a
+}
+
 // FreeDoc draws an arbitrary JSON value nested at most depth levels.
 func (g *G) FreeDoc(depth int) *DNode {
+	if depth > 0 && g.chance("wide", 2) {
+		return g.Wide()
+	}
 	if depth <= 0 || g.chance("freeleaf", 30) {
 		return g.Leaf()
 	}
@@ -194,8 +220,15 @@ func (b *docBuilder) witness(steps []Step, leaf func() *DNode) *DNode {
 				}
 			}
 		}
+		if g.chance("widearr", 3) {
+			n = 65 + g.intn("widen", 60)
+		}
 		d = Arr()
 		for i := 0; i < n; i++ {
+			if n > 20 && i > 3 {
+				d.Kids = append(d.Kids, Num(float64(i)))
+				continue
+			}
 			if g.chance("elsub", 75) {
 				d.Kids = append(d.Kids, sub())
 			} else {
@@ -603,7 +636,7 @@ func (g *G) perturb(d *DNode) *DNode {
 // MaxDocNodes bounds generated documents (DESIGN: documents <= ~200 nodes). Nested filters
 // with "$.."-operands make evaluation polynomial in the document size with a high degree;
 // the bound keeps a case in the millisecond range.
-const MaxDocNodes = 160
+const MaxDocNodes = 220
 
 // Trim keeps at most budget nodes (breadth-first), replacing what is cut by null leaves /
 // shortened containers.
@@ -662,6 +695,10 @@ func (g *G) Opaquify(d *DNode) *DNode {
 		return n
 	}
 	d = walk(d, 0)
+	if g.chance("opaqueroot", 3) {
+		// the whole document is not decoded JSON
+		return Opaque(OpaqueTags[g.intn("roottag", len(OpaqueTags))])
+	}
 	if count == 0 {
 		// force one: replace the root's first child, or the root itself
 		tag := OpaqueTags[g.intn("tag0", len(OpaqueTags))]
